@@ -93,12 +93,22 @@ package peering
 //@   requires nonnil(link) && link.switchLabel != 0
 //@ func Peering.RemoveLink
 //@   requires nonnil(link)
+//@   callsite m.RoutingTable.RemoveNextHop peer-route-goes-only-with-the-registration [C16]: arg1 == link.peer && !has(p.links, arg1)
 //@ func Peering.copyLinksWithLocking
 //@   ensures copy: true
 
 // ---- peering handshake (C04) --------------------------------------------------------------------------
+// The universe proof is a digest over: universe name | this connection's challenge | universe secret | both addresses.
+// Stated append by append (the chained statement over the final buffer is provable but takes the solvers 15-25 s,
+// too slow to be a dependable check): each part is appended to the buffer built so far, the secret bytes are the
+// bytes of the secret parameter, and the digest is taken over that buffer.
 //@ func makeUniverseAuth
-//@   option trusted pure
+//@   callsite append#1 name-first [C04]: len(arg0) == 0 && base(arg1) == base(universeData) && len(arg1) == len(universe) && (forall i int :: 0 <= i && i < len(universe) ==> arg1[i] == universe[i])
+//@   callsite append#2 then-this-connections-challenge [C04]: base(arg0) == base(authData) && len(arg0) == len(universe) && base(arg1) == base(challenge) && off(arg1) == off(challenge) && len(arg1) == len(challenge)
+//@   callsite append#3 then-the-secret [C04]: base(arg0) == base(authData) && len(arg0) == len(universe) + len(challenge) && base(arg1) == base(secretData) && len(arg1) == len(secret) && (forall i int :: 0 <= i && i < len(secret) ==> arg1[i] == secret[i])
+//@   callsite append#4 then-remote-address [C04]: base(arg0) == base(authData) && len(arg0) == len(universe) + len(challenge) + len(secret)
+//@   callsite append#5 then-own-address [C04]: base(arg0) == base(authData) && len(arg0) >= len(universe) + len(challenge) + len(secret)
+//@   callsite Hash.Digest digest-of-that-buffer [C04]: base(arg1) == base(authData) && off(arg1) == 0 && len(arg1) >= len(universe) + len(challenge) + len(secret)
 
 //@ type peeringRequestState
 //@   invariant wired [C13]: self.peering != nil
@@ -127,6 +137,8 @@ package peering
 //@   option errbreaks
 //@   requires nonnil(in) && in.data != nil && in.builder != nil && usable(in) && state.session != nil
 //@   callsite ConstantTimeCompare#1 this-connections-challenge [C04]: base(arg0) == base(state.challenge) && off(arg0) == off(state.challenge) && len(arg0) == len(state.challenge) && base(arg1) == base(r.Challenge) && len(arg1) == len(r.Challenge)
+//@   callsite makeUniverseAuth expected-proof-over-own-secret-and-challenge [C04]: arg0 == state.peering.instance.Config().Router.Universe && arg1 == state.peering.instance.Config().Router.UniverseSecret && base(arg2) == base(state.challenge) && off(arg2) == off(state.challenge) && len(arg2) == len(state.challenge) && arg3 == state.peering.instance.Identity().IP && arg4 == state.remoteIP
+//@   callsite ConstantTimeCompare#2 presented-proof-against-expected [C04]: base(arg0) == base(r.UniverseAuth) && len(arg0) == len(r.UniverseAuth) && base(arg1) == base(universeCheckAuth) && len(arg1) == len(universeCheckAuth)
 //@   ensures accepted-only-if [C04]: result1 == nil ==> (old(state.step) == 2 && in.unsealedBy == state.session && ctcmp_ok_1)
 //@   ensures response-present [C04]: (result1 == nil ==> nonnil(result0) && result0 == in) && (result1 != nil ==> result0 == nil)
 //@   ensures frame-kept [C13]: in.dblReturnCheck == old(in.dblReturnCheck) && in.builder == old(in.builder) && in.data != nil
